@@ -1,6 +1,6 @@
 From Coq Require Import ZArith Lia Bool.
 From GB Require Import Order.
-Open Scope Z_scope.
+Local Open Scope Z_scope.
 
 Lemma land_pred_pow2 n : 0 <= n -> Z.land (2 ^ n) (2 ^ n - 1) = 0.
 Proof.
